@@ -803,4 +803,51 @@ Proof.
        (eapply safe_mono; [apply bottom_safe; assumption| |intros ? []]);
        intros [s'|s']; [|intros []]; intros [HMs Has]; split; [exact HMs|apply mu_decr; [exact HMs|lia]].
 Qed.
+
+Lemma INV_start fmt : INV text (scan_start fmt text).
+Proof.
+  split; [exists []; split; reflexivity|constructor].
+Qed.
+
+Lemma shebang_safe l : INV text l -> l_tidx l = 0 -> safe (shebang l) (fun l' => INV text l' /\ l_tidx l' = 0) nofail.
+Proof.
+  intros Hi Ht. unfold shebang. destruct (N.ltb_spec 1 (len l)); [|simpl; auto].
+  sstep. sstep; [sstep|simpl; auto]. destruct (x =? 33); [|simpl; auto].
+  set (t := match index_byte (l_src l) 10 with Some t => t | None => len l - 1 end).
+  assert (Htl : t + 1 <= len l).
+  { unfold t. destruct (index_byte (l_src l) 10) eqn:E; [apply index_byte_bound in E; unfold len; lia|lia]. }
+  destruct (emit_spec text gen_tokenShebangLine (t + 1) l Hi Htl) as (l1 & H1 & Hi1 & Hb1 & _).
+  rewrite H1, bind_ok. simpl.
+  split; [eapply INV_eq; [| | |exact Hi1]; destruct (index_byte (l_src l) 10); reflexivity|].
+  destruct (index_byte (l_src l) 10); cbn; lia.
+Qed.
+
+Theorem scan_run_safe fmt : safe (scan_run U noshow fmt text) (INV text) (INV text).
+Proof.
+  unfold scan_run.
+  eapply safe_bind; [eapply safe_mono; [apply shebang_safe; [apply INV_start|reflexivity]|intros a Ha; exact Ha|intros ? []]|].
+  intros l1 [Hi1 Ht1]. cbv zeta.
+  eapply safe_bind with (Q' := fun r => same_core l1 (fst r) /\ snd r <= len l1).
+  { destruct (l_ctx l1 =? gen_ContextMarkdown); [|simpl; split; [auto with sc|lia]].
+    eapply safe_mono; [apply apply_code_block_safe; lia| |intros ? []]. intros [l2 q] (H1 & H2 & H3). auto. }
+  intros [l2 p0] [Hs2 Hp0]. simpl in Hs2, Hp0.
+  pose proof (same_core_len _ _ Hs2) as Hl2.
+  assert (HM0 : MI (mkM l2 p0 (l_line l1) (l_col l1) (l_cdev l1) (l_ldev l1) 0 false 0 true)).
+  { unfold MI. cbn. split; [eapply same_core_INV; eauto|]. destruct Hs2 as (_ & Hb & _). lia. }
+  eapply safe_bind.
+  - apply (safe_loop _ MI (fun st => N.to_nat (mu st)) (fun st => MI st /\ len (m_l st) <= m_p st)) with (E := INV text).
+    + intros st HM. eapply safe_mono; [apply scan_body_safe; exact HM| |auto].
+      intros [s'|s']; simpl; [intros [H1 H2]; split; [exact H1|lia]|intros [-> H]; auto].
+    + exact HM0.
+    + unfold mu, scan_fuel, apos. cbn [m_l m_p]. destruct (is_attr (l_ctx l2)); rewrite nlen_eq; lia.
+  - intros st [HM Hend]. pose proof HM as (Hi & Hp & Ht).
+    assert (Hpe : m_p st = len (m_l st)) by lia.
+    eapply safe_bind with (Q' := INV text).
+    { destruct (0 <? len (m_l st)); [|simpl; exact Hi].
+      destruct (emit_text_spec st (m_l st) Hi Hp) as (l3 & H3 & Hi3 & _). rewrite H3. simpl. exact Hi3. }
+    intros l3 Hi3. eapply safe_bind with (Q' := INV text).
+    { destruct ((l_ctx l3 =? gen_ContextMarkdown) && m_url st); [|simpl; exact Hi3].
+      destruct (emit0_spec gen_tokenEndURL l3 Hi3) as (l4 & H4 & Hi4 & _). rewrite H4. simpl. exact Hi4. }
+    intros l4 Hi4. destruct (emit0_spec gen_tokenEOF l4 Hi4) as (l5 & H5 & Hi5 & _). rewrite H5. simpl. exact Hi5.
+Qed.
 End ScanProofs.
